@@ -6,6 +6,7 @@ import json, os, re, subprocess, sys, time
 root = '/verif/neutral'
 lst = subprocess.run(['/verif/bin/govc', 'list'], capture_output=True, text=True).stdout
 pkgprops = {}
+funcs_of = {}
 cur = None
 for line in lst.split('\n'):
     if re.match(r'^C\d+', line):
@@ -13,6 +14,7 @@ for line in lst.split('\n'):
     elif line.startswith('  ') and cur:
         pkg = line.strip().split(':')[0]
         pkgprops.setdefault(pkg, set()).add(cur)
+        funcs_of.setdefault(cur, []).append(line.strip())
 pkgprops.setdefault('vnet', set()).add('C19'); pkgprops.setdefault('packetio', set()).add('C19')
 for p in ('deadline', 'dpipe', 'udp'):
     pkgprops.setdefault(p, set()).add('C19')
@@ -28,8 +30,17 @@ for nid in ids:
         r = subprocess.run(['git', '-C', '/repo', 'apply', path], capture_output=True, text=True)
         if r.returncode != 0:
             print(nid, f, 'DOES NOT APPLY', r.stderr[:200]); continue
-        pkgs = set(os.path.dirname(m) for m in re.findall(r'^\+\+\+ b/(\S+)', open(path).read(), re.M))
+        text = open(path).read()
+        pkgs = set(os.path.dirname(m) for m in re.findall(r'^\+\+\+ b/(\S+)', text, re.M))
         props = sorted(set().union(*[pkgprops.get(p, set()) for p in pkgs]))
+        # narrow to the properties whose functions are named in the hunks (fall back to the whole package)
+        names = set(re.findall(r'func (?:\([^)]*\) )?(\w+)\(', text))
+        narrowed = set()
+        for prop, fl in funcs_of.items():
+            if prop in props and any(f.split(':')[0] in pkgs and f.split('.')[-1].split('$')[0] in names for f in fl):
+                narrowed.add(prop)
+        if narrowed and os.environ.get('NEUTRAL_ALL') is None:
+            props = sorted(narrowed | ({'C19'} & set(props)))
         out = {}
         try:
             for p in props:
